@@ -38,6 +38,7 @@ class Result:
         self.viol = {}          # signature -> [what, [witness...], count]
         self.samples = []
         self.notes = {}
+        self.bag = set()        # free-form set merged by union (BFS successor states)
 
     def count(self, key, k=1):
         self.n[key] = self.n.get(key, 0) + k
@@ -84,6 +85,7 @@ class Result:
                 self.samples.append(s)
         for k, v in other.notes.items():
             self.notes.setdefault(k, v)
+        self.bag |= other.bag
 
     def digest(self):
         """Deterministic summary used by the replay self-test."""
